@@ -260,7 +260,8 @@ Section Run.
       rewrite grun_rlift in Hp. injection Hp as _ Hp.
       pose proof (read_sizes_length _ _ _ _ Hs) as HL1.
       pose proof (read_streams_length _ _ _ _ _ Hst ltac:(lia)) as HL2.
-      destruct (parse_streams_typed _ _ _ _ _ _ ltac:(lia) HF Hp) as [HL3 HT].
+      assert (HL4 : length streams = length (q_proto q)) by lia.
+      destruct (parse_streams_typed _ _ _ _ _ _ HL4 HF Hp) as [HL3 HT].
       split; [split; assumption|reflexivity].
     - destruct (pl <? IGNORED_HEADER_SIZE); [discriminate|].
       apply grun_bind_ok in H2. destruct H2 as (s4 & b & _ & H2). cbn [rret grun] in H2. injection H2 as _ <-.
